@@ -23,6 +23,24 @@ pub fn sac_exec(env: &Env, t: &[&str]) -> Option<(String, String)> {
             let sac = env.register_stellar_asset_contract_v2(admin);
             Some((format!("ok {}", Addr::from_sdk(&sac.address()).tok()), String::new()))
         }
+        "itok.new" => {
+            // itok.new <addr> <owner>: the repository's own InterchainToken (native, current source), owner = minter
+            let addr = Addr::parse(t[1]).sdk(env);
+            let owner = Addr::parse(t[2]).sdk(env);
+            let md = soroban_token_sdk::metadata::TokenMetadata {
+                name: soroban_sdk::String::from_str(env, "GasToken"),
+                symbol: soroban_sdk::String::from_str(env, "GT"),
+                decimal: 7,
+            };
+            let tid = soroban_sdk::BytesN::<32>::from_array(env, &[9u8; 32]);
+            let r = guarded(|| {
+                env.register_at(&addr, interchain_token::InterchainToken, (owner, None::<Address>, tid, md));
+            });
+            Some(match r {
+                Ok(()) => (format!("ok {}", Addr::from_sdk(&addr).tok()), String::new()),
+                Err(e) => ("err".into(), short_err(&e)),
+            })
+        }
         "sac.mint" => {
             let tok = Addr::parse(t[1]).sdk(env);
             let to = Addr::parse(t[2]).sdk(env);
@@ -161,7 +179,9 @@ impl GsWorld {
                 let receiver = Addr::parse(t[1]).sdk(&env);
                 let token = Token { address: Addr::parse(t[2]).sdk(&env), amount: pi128(t[3]) };
                 let args: SVec<Val> = (receiver.clone(), token.clone()).into_val(&env);
-                let wrong: SVec<Val> = (gs.clone(), token.clone()).into_val(&env);
+                // "other arguments": certainly different from the real ones whatever the receiver is (another amount)
+                let wrong_token = Token { address: token.address.clone(), amount: token.amount.wrapping_add(1) };
+                let wrong: SVec<Val> = (receiver.clone(), wrong_token).into_val(&env);
                 let tree = Inv::new(&gs, "collect_fees", args, vec![]);
                 install_auth_tree(&env, t[4], &tree, wrong);
                 let r = guarded(|| self.client().try_collect_fees(&receiver, &token));
@@ -174,7 +194,8 @@ impl GsWorld {
                 let receiver = Addr::parse(t[2]).sdk(&env);
                 let token = Token { address: Addr::parse(t[3]).sdk(&env), amount: pi128(t[4]) };
                 let args: SVec<Val> = (mid.clone(), receiver.clone(), token.clone()).into_val(&env);
-                let wrong: SVec<Val> = (mid.clone(), gs.clone(), token.clone()).into_val(&env);
+                let wrong_token = Token { address: token.address.clone(), amount: token.amount.wrapping_add(1) };
+                let wrong: SVec<Val> = (mid.clone(), receiver.clone(), wrong_token).into_val(&env);
                 let tree = Inv::new(&gs, "refund", args, vec![]);
                 install_auth_tree(&env, t[5], &tree, wrong);
                 let r = guarded(|| self.client().try_refund(&mid, &receiver, &token));
